@@ -19,7 +19,7 @@ import specclient
 import treedump
 from parts import kfclass, lrtie, parsetie, texts as T
 
-SPEC = dict(gen=['tables', 'actions', 'unicodecat'], props=['CalmVerif.Props.C03'], drivers=['drv_lr', 'drv_parse', 'drv_spec'],
+SPEC = dict(gen=['tables', 'actions', 'unicodecat', 'lexdata'], props=['CalmVerif.Props.C03', 'CalmVerif.Props.C03tok'], drivers=['drv_lr', 'drv_parse', 'drv_spec'],
             audit='Audit/C03.lean')
 
 ALPHA = ['a', 'b', '1', "'s'", '/r/', '(', ')', '{', '}', '[', ']', ';', ',', '.', '=', '+', '-', '++', '/', '/=', '?', ':',
